@@ -681,7 +681,7 @@ pub fn run(run: &mut Run) {
         Mode::decode_length for every size byte x buffered length 0..=1024 x 2 modes (complete); random buffers with biased size bytes; all 256x256 (size,type) pairs x 3 tails x 2 modes (complete); bit flips / substitutions / \
         truncations / extensions / splices of reference frames of all 73 kinds; every byte value in every enum-typed, count and identifier \
         position of every kind (complete); the receive loop (decode until 'need more') over concatenated mutated frames must consume >= 4 \
-        bytes per step, and the same bytes arriving in pieces of 1 / 3 / 5,3 / 7,1 at one codec must give the same results as frame-by-frame decoding with fresh codecs. Non-trivial = a complete announced frame was buffered (result is a packet or a decode error)."
+        bytes per step, and the same bytes arriving in pieces of 1 / 3 / 5,3 / 7,1 at one codec must give the same results as frame-by-frame decoding with fresh codecs, and every frame of such a buffer must decode to the same result once more on its own, on a fresh thread and in reverse order; frames of any type whose body repeats codepage markers, carets, lead bytes and NULs up to the frame limit (up to 500 markers in one text). Non-trivial = a complete announced frame was buffered (result is a packet or a decode error)."
         .into();
     run.assumptions = vec![
         "a framing error is an insim::Error::IO; every other error is a decode error".into(),
